@@ -79,7 +79,7 @@ func ch(name string, params, thorough map[string]int, reach []string, desc strin
 			"no-request-under-lock": lockNote, "lock-released": lockNote, "lockset": lockNote, "rebuild-is-atomic-under-updater-lock": lockNote,
 			"flight-in-progress-never-forgotten": sfNote, "concurrent-registration-not-lost": sfNote,
 			"first-callers-handle-follows-the-install": sfNote, "second-callers-handle-follows-the-install": sfNote, "a-later-handle-follows-the-install": sfNote,
-			"every-failed-field-is-reported": egNote, "only-fields-whose-own-lookup-failed-stay-unfilled": egNote}}
+			"data-race": raceNote, "every-failed-field-is-reported": egNote, "only-fields-whose-own-lookup-failed-stay-unfilled": egNote}}
 }
 
 const egNote = "the order in which the tasks of an errgroup run is fixed by the model (order of the Go calls); the native run schedules them freely"
